@@ -1,48 +1,11 @@
-(* C03, lexical level: the guard is necessary (the code accepts escape sequences the manual does not have) and
-   satisfiable (a program with every token class, every escape form and all comment forms). *)
+(* C03, lexical level: the guard was necessary for the code before the repair (it accepted escape sequences the manual
+   does not have; the repaired code reports them) and is satisfiable (a program with every token class, every escape form and all comment forms). *)
 From Coq Require Import Ascii String List NArith ZArith Bool Arith Lia ZifyNat ZifyN ZifyBool.
 From LH Require Import Base.Bytes Base.Res Model.Codec Model.Lexer Spec.LuaNumeral Spec.LuaLex.
 From LH Require Import Proofs.LexerGrammarBase Proofs.LexerGrammarSep Proofs.LexerGrammarTok Proofs.LexerGrammarStr
   Proofs.LexerGrammarEsc Proofs.LexerGrammarMain.
 Import ListNotations.
 Local Open Scope N_scope.
-
-(* every escape sequence of the manual passes the boolean test used by the guard *)
-Lemma esc_lua_legal e r : EscLua e r -> legal_escape (e ++ r) = true.
-Proof.
-  intros [c r0 Hs|c r0 Hn Hr|c d r0 Hc Hd Hne|ws r0 Hw Hr|h1 h2 r0 H1 H2|ds r0 Hne Hd Hlen Hmax Hval|hs r0 Hne Hh Hval];
-    cbn [app]; unfold legal_escape.
-  - rewrite Hs. reflexivity.
-  - rewrite Hn, orb_true_r. reflexivity.
-  - rewrite Hc, orb_true_r. reflexivity.
-  - reflexivity.
-  - cbn [simple_escape]. replace (simple_escape 120 || lx_newline 120 || (120 =? 122)) with false by reflexivity.
-    cbn [N.eqb Pos.eqb]. rewrite H1, H2. reflexivity.
-  - destruct ds as [|c ds']; [congruence|]. cbn [app forallb] in *. pose proof Hd as Hd0.
-    apply andb_true_iff in Hd as [Hc Hds].
-    replace (simple_escape c || lx_newline c || (c =? 122)) with false
-      by (rewrite simple_escape_eq; cbn [existsb]; unfold lx_newline, lx_digit in *; lia).
-    replace (c =? 120) with false by (unfold lx_digit in Hc; lia). rewrite Hc.
-    apply N.leb_le.
-    assert (E : firstn 3 (take_while lx_digit (c :: ds' ++ r0)) = c :: ds'); [|rewrite E; exact Hval].
-    destruct Hmax as [H3|Hr].
-    + cbn [take_while]. rewrite Hc.
-      assert (P : forall (a b : list N), forallb lx_digit a = true -> exists x, take_while lx_digit (a ++ b) = a ++ x).
-      { induction a as [|y a IH]; intros b Ha; cbn [app]; [eexists; reflexivity|]. cbn [forallb] in Ha.
-        apply andb_true_iff in Ha as [Hy Ha]. cbn [take_while]. rewrite Hy. destruct (IH b Ha) as [x ->]. eexists. reflexivity. }
-      destruct (P ds' r0 Hds) as [x ->].
-      change (c :: ds' ++ x) with ((c :: ds') ++ x). rewrite firstn_app. cbn [length] in H3 |- *.
-      replace (3 - S (length ds'))%nat with 0%nat by lia. rewrite firstn_O, app_nil_r.
-      apply firstn_all2. cbn [length]. lia.
-    + change (c :: ds' ++ r0) with ((c :: ds') ++ r0). rewrite (take_while_app lx_digit (c :: ds') r0 Hd0 Hr).
-      apply firstn_all2. exact Hlen.
-  - replace (simple_escape 117 || lx_newline 117 || (117 =? 122)) with false by reflexivity.
-    cbn [N.eqb Pos.eqb lx_digit N.leb N.compare Pos.compare Pos.compare_cont andb]. cbn [app].
-    rewrite <- app_assoc. cbn [app].
-    assert (T : take_while lx_xdigit (hs ++ 125 :: r0) = hs) by (apply take_while_app; [exact Hh|reflexivity]).
-    rewrite T. rewrite skipn_app, Nat.sub_diag, skipn_all. cbn [app skipn hd_is].
-    destruct hs as [|h hs']; [congruence|]. cbn [negb andb N.eqb Pos.eqb]. apply N.ltb_lt. exact Hval.
-Qed.
 
 (* a text that begins with a quote and a backslash is lexically valid only if that backslash starts a legal escape *)
 Lemma lexes_quote_first q x sts : quote q -> Lex EscLua (q :: 92 :: x) sts -> legal_escape x = true.
@@ -73,17 +36,26 @@ Definition w_esc_u : list N := [34; 92; 117; 123; 125; 34].
 Definition w_esc_300 : list N := [34; 92; 51; 48; 48; 34].                                       (* "\300" *)
 Definition w_esc_uzz : list N := [34; 92; 117; 123; 122; 122; 125; 34].                           (* "\u{zz}" *)
 Definition w_esc_ubig : list N := [34; 92; 117; 123; 55; 70; 70; 70; 70; 70; 70; 70; 70; 125; 34]. (* "\u{7FFFFFFFF}" *)
-Definition accepted_by_code (gbk_runes : list N -> Z) (bs : list N) : Prop :=
+Definition accepted_by_code {fx : FxEscape} (gbk_runes : list N -> Z) (bs : list N) : Prop :=
   exists ts, lex_all gbk_runes bs = Ok ts /\ flat_map lerrs ts = [].
 
+Definition esc_witnesses : list (list N) := [w_esc_q; w_esc_x; w_esc_256; w_esc_u; w_esc_300; w_esc_uzz; w_esc_ubig].
+
+(* the code BEFORE the repair (fx_escape = false) accepts them *)
 Lemma escape_witnesses gbk_runes :
-  Forall (fun bs => accepted_by_code gbk_runes bs /\ no_bad_escape bs = false /\ ~ exists sts, LexesTo bs sts)
-         [w_esc_q; w_esc_x; w_esc_256; w_esc_u; w_esc_300; w_esc_uzz; w_esc_ubig].
+  Forall (fun bs => accepted_by_code (fx := false) gbk_runes bs /\ no_bad_escape bs = false /\ ~ exists sts, LexesTo bs sts)
+         esc_witnesses.
 Proof.
   repeat constructor;
     try (eexists; split; vm_compute; reflexivity);
     intros [sts H]; apply (lexes_quote_first 34 _ sts (or_introl eq_refl)) in H; vm_compute in H; discriminate.
 Qed.
+
+(* the REPAIRED code (fx_escape = true) reports each of them: one token, one "invalid escape sequence", nothing else *)
+Lemma escape_witnesses_rejected gbk_runes :
+  Forall (fun bs => exists ts, lex_all (fx := true) gbk_runes bs = Ok ts /\ flat_map lerrs ts = [LeBadEscape])
+         esc_witnesses.
+Proof. repeat constructor; eexists; split; vm_compute; reflexivity. Qed.
 
 (* a program with every token class, every escape form of the manual, long brackets of two levels and both
    comment forms satisfies the guard and is lexically valid *)
